@@ -300,3 +300,107 @@ def r_unitconvert(cx):
               "unitconvert stores %s = %s(factor of %s)" % (key, "1/" if w[1] else "", w[0]) if ok else
               "unitconvert must store %s = %s(factor of %s); found %s" % (key, "1/" if w[1] else "", w[0], got.get(key)),
               cx.where(g.d["span"]))
+
+
+# ---------------------------------------------------------------------------------------------------------------------
+# R-INDEX-VALIDATION (C11, C12, C09): list parameters that become array indices are validated as such
+
+def _mentions_call(t, tails):
+    hit = []
+
+    def v(x):
+        if x[0] == "call" and isinstance(x[1], str) and x[1].rsplit("::", 1)[-1] in tails:
+            hit.append(x)
+        return True
+    mir.walk(t, v)
+    return hit
+
+
+@rule("R-INDEX-VALIDATION", ["C11", "C12", "C09"])
+def r_index_validation(cx):
+    """(a) axisswap::new: the forward/inverse functions index the tuple with `|order[k]| - 1`; the constructor therefore
+    bounds the *magnitude* of every element (a comparison of abs/unsigned_abs of the element with the number of axes)
+    and tests it for integrality (`(i as f64) != o`) and for zero. (b) stack::new: the arguments of push, pop and
+    flip are coordinate indices; each is validated by membership in a literal list of integral values within 1..4
+    (`[1., 2., 3., 4.].contains(i)`), not by an interval test that also admits 1.5."""
+    n = 0
+    if cx.pid in ("C11", "C09"):
+        f = cx.f.fn("inner_op::axisswap::new")
+        mag, integ, zero = [], [], []
+        for bb in sorted(f.reachable()):
+            t = f.term(bb)
+            if t["k"] != "switch" or f.innermost_loop(bb) is None:
+                continue
+            c = f.operand(t["discr"], f.end_point(bb))
+            if c[0] != "bin":
+                continue
+            if c[1] in ("Gt", "Ge", "Lt", "Le") and (_mentions_call(c[3], ("len",)) or _mentions_call(c[2], ("len",)) or
+                                                      any(x[0] == "const" and x[2] in (4, 5) for x in (c[2], c[3]))):
+                side = c[2] if not _mentions_call(c[2], ("len",)) else c[3]
+                mag.append((bb, bool(_mentions_call(side, ("abs", "unsigned_abs")))))
+            if c[1] in ("Ne", "Eq") and c[2][0] == "cast" and c[3][0] != "const":
+                integ.append(bb)
+            if c[1] in ("Ne", "Eq") and c[3][0] == "const" and c[3][2] == 0:
+                zero.append(bb)
+        n += 1
+        ok = bool(mag) and all(a for _, a in mag) and bool(integ) and bool(zero)
+        why = "no range test of the elements of `order`" if not mag else (
+            "the range test compares the signed element (a negative out-of-range axis passes)" if not all(a for _, a in mag)
+            else ("no integrality test" if not integ else "no test for 0"))
+        cx.ob("R-INDEX-VALIDATION", "axisswap/order", ok,
+              "axisswap::new bounds |order[k]| by the number of axes, and tests integrality and 0" if ok else
+              "axisswap::new: %s - an element that is not a valid (signed) axis number is accepted and indexes the tuple "
+              "at apply time" % why, cx.where(f.term(mag[0][0])["span"]) if mag else cx.where(f.d["span"]))
+    if cx.pid in ("C12", "C09"):
+        g = cx.f.fn("inner_op::stack::new")
+        k = 0
+        keys_seen = set()
+        for bb, t in g.calls():
+            c = g.callee(t) or ""
+            if not c.endswith("::contains"):
+                continue
+            lp = g.innermost_loop(bb)
+            a = g.arg_terms(bb)
+            # which series is being validated: the iterator of the enclosing loop
+            import pertuple
+            src = pertuple.iterator_entry_value(g, lp) if lp is not None else None
+            key = None
+            if src is not None:
+                for x in _mentions_call(src, ("series",)):
+                    key = K._const_key(x[2][1]) if len(x[2]) > 1 else None
+            if key not in ("push", "pop", "flip"):
+                continue
+            keys_seen.add(key)
+            n += 1
+            k += 1
+            recv = a[0]
+            for _ in range(4):
+                if recv[0] == "cast":
+                    recv = recv[2]
+                elif recv[0] in ("refplace", "ref"):
+                    recv = g._deref(recv, g.end_point(bb))
+                else:
+                    break
+            vals = None
+            if recv[0] == "agg" and recv[1] == "array":
+                vals = []
+                for e in recv[2]:
+                    if e[0] == "const" and isinstance(e[2], tuple) and e[2][0] == "float":
+                        vals.append(float(e[2][1]))
+                    else:
+                        vals = None
+                        break
+            ok = c == "core::slice::<impl [T]>::contains" and vals is not None and \
+                all(v == int(v) and 1 <= v <= 4 for v in vals)
+            cx.ob("R-INDEX-VALIDATION", "stack/%s" % key, ok,
+                  "stack::new accepts a %s index only if it is one of %s" % (key, vals) if ok else
+                  "stack::new validates the %s indices by %s (not by membership in a list of integral axis numbers 1..4): "
+                  "a fractional or out-of-range index is accepted and truncated at apply time" % (key, c.rsplit("::", 2)[-2:]),
+                  cx.where(t["span"]))
+        for key in ("push", "pop", "flip"):
+            if key not in keys_seen:
+                n += 1
+                cx.ob("R-INDEX-VALIDATION", "stack/%s" % key, False,
+                      "stack::new does not validate the indices given with `%s` by membership in a list" % key,
+                      cx.where(g.d["span"]))
+    cx.count("R-INDEX-VALIDATION", "validations", n)
